@@ -324,6 +324,20 @@ func StructDomain(s *idl.Struct, depth int, rich bool) []*Val {
 		}
 	}
 	out = append(out, base.Clone())
+	if !rich {
+		// the second representative leaves every optional field unset (absent on the wire)
+		min := base.Clone()
+		changed := false
+		for i, f := range s.Fields {
+			if f.Req == idl.ReqOptional {
+				delete(min.O, strconv.Itoa(int(ids[i])))
+				changed = true
+			}
+		}
+		if changed {
+			out = append(out, min)
+		}
+	}
 	if rich {
 		for i := range s.Fields {
 			for _, v := range doms[i] {
